@@ -46,7 +46,7 @@ type solver struct {
 }
 
 // SolverCommand is the argv of the back end; default z3 -in.
-var SolverCommand = []string{"z3", "-in"}
+var SolverCommand = []string{"z3-new", "-in"}
 
 func newSolver(timeoutMs int) (*solver, error) {
 	s := &solver{name: SolverCommand[0], timeMs: timeoutMs}
